@@ -585,11 +585,20 @@ impl Xot {
     /// You can use this function just before serializing the tree to XML
     /// using [`Xot::write`] or [`Xot::to_string`].
     pub fn create_missing_prefixes(&mut self, node: Node) -> Result<(), Error> {
-        let node = if self.is_document(node) {
-            self.document_element(node)?
-        } else {
-            node
-        };
+        if self.is_document(node) {
+            // a fragment can have several top-level elements
+            let elements = self
+                .children(node)
+                .filter(|child| self.is_element(*child))
+                .collect::<Vec<_>>();
+            if elements.is_empty() {
+                return Err(Error::NoElementAtTopLevel);
+            }
+            for element in elements {
+                self.create_missing_prefixes(element)?;
+            }
+            return Ok(());
+        }
         if !self.is_element(node) {
             return Err(Error::NotElement(node));
         };
